@@ -118,6 +118,14 @@ def judge(case):
                          or "Could not parse a numeric solution" in obs.get("error_detail", ""))):
                 # both messages end with "try running the solver without optimized Z3 queries or make sure that
                 # lengths/ranges are restricted to syntactically valid ones": the documented refusal of that mode
+                spurious = _numeric_refusal_is_spurious(case, obs.get("error_detail", ""))
+                if spurious:
+                    # ... unless the refusal contradicts its own contract: extract_model_value_int_var promises a tree
+                    # "whenever the grammar recognizes" the value in the format [+-]0*<digits>
+                    viol.append({"sig": "solve:raises:RuntimeError:numeric_refusal_although_value_is_writable", "constraint": obs["text"],
+                                 "settings": case["settings"], "detail": obs.get("error_detail"), "writable_as": spurious,
+                                 "events": ev, "template": case["template"]})
+                    break
                 documented = True
                 continue
             sig = "solve:" + e.split(":")[0] + ":" + e.split(":", 1)[1]
@@ -141,6 +149,30 @@ def judge(case):
     has_atom = True
     return {"labels": labels, "nontrivial": ncalls >= 2 and has_atom and not documented, "violations": viol, "inconclusive": None,
             "sample": {"constraint": obs["text"], "settings": case["settings"], "events": ev[:14]}}
+
+
+def _numeric_refusal_is_spurious(case, detail):
+    """'Could not parse a numeric solution (N) for variable v of type '<T>'': returns a member of L(<T>) of the form
+    [+]0*N (or -0*|N|) if there is one with at most 6 padding zeroes -- the format the refused step claims to support"""
+    import re
+    m = re.search(r"Could not parse a numeric solution \((-?[0-9]+)\) for variable .* of type '(<[^']*>)'", detail or "")
+    if not m:
+        return None
+    n, T = int(m.group(1)), m.group(2)
+    g = case["grammar"] if not case.get("start_symbol") else c01.restrict_grammar(case["grammar"], case["start_symbol"])
+    cg = rt.canon(g)
+    if T not in cg:
+        return None
+    signs = ["-"] if n < 0 else ["", "+"]
+    for sg in signs:
+        for z in range(0, 7):
+            cand = sg + "0" * z + str(abs(n))
+            try:
+                if rt.member(cg, T, cand):
+                    return cand
+            except Exception:
+                return None
+    return None
 
 
 def _unit_alternative_shadowed(case, detail):
